@@ -99,19 +99,12 @@ def lookupObs? : SExp → Option LookupObs
       pure ⟨← ps.mapM? chars?, ← resolved? r, ← payload? g, ← payload? gq, ← payload? p⟩
   | _ => none
 
-/-- (spec, hyp) for a lookup case -/
+/-- (spec, hyp) for a lookup case. No class of lookups is excluded: the model is the code as it is (`codeCfg`: values
+    substituted as supplied), so an escaped value in a payload is a disagreement AND a spec failure = a plain violation. -/
 def specLookup (t : List Leaf) (q : Query) (vars : List (Str × Str)) (impl : SExp) : Bool × String :=
   match lookupObs? impl with
   | none => (false, "-")
-  | some o =>
-    if lookupOk t q vars o then (true, "-")
-    else
-      -- attribute to the known finding: everything but the substitution clause holds and some substituted value
-      -- contains a character the autoescape rewrites
-      let esc := match o.resolved with
-        | .ok r _ => !valuesEscapeFree t r vars
-        | _ => false
-      if lookupOkButSubstitution t q vars o && esc then (false, "autoescape_html") else (false, "-")
+  | some o => (lookupOk t q vars o, "-")
 
 /-! ## histories (seq cases) -/
 
@@ -148,7 +141,6 @@ def specSeq (t : List Leaf) (ops : List Op) (impl : SExp) : Bool × String :=
   | some obs =>
     if seqOk t ops obs then (true, "-")
     else if !noStale ops then (false, "stale_template_cache")
-    else if !seqEscapeFree t ops then (false, "autoescape_html")
     else (false, "-")
 
 /-! ## concurrent requests (conc cases) -/
@@ -167,14 +159,11 @@ def concObs? : SExp → Option ConcObs
   | .list [a, .list cs] => do pure ⟨← obsItem? a, ← cs.mapM? obsItem?⟩
   | _ => none
 
-/-- (spec, hyp) for a concurrent case: the hypotheses of `C20_conc_model_meets_spec_partial` the input violates -/
+/-- (spec, hyp) for a concurrent case: `C20_conc_model_meets_spec` excludes nothing -/
 def specConc (t : List Leaf) (reqs : List Req) (impl : SExp) : Bool × String :=
   match impl.list? >>= fun l => l.mapM? concObs? with
   | none => (false, "-")
-  | some obs =>
-    if concOk t reqs obs then (true, "-")
-    else if !reqs.all (reqEscFree t) then (false, "autoescape_html")
-    else (false, "-")
+  | some obs => (concOk t reqs obs, "-")
 
 def processLine (line : String) : String :=
   match SExp.fields line with
